@@ -6,11 +6,13 @@ Proof. intros HA HB HC Ht.
   assert (H1 : 0 <= B*t) by nra. assert (H2 : 0 <= t*t) by nra.
   assert (H3 : 0 <= C*t) by nra. assert (H4 : 0 <= (C*t)*(t*t)) by (apply Rmult_le_pos; assumption).
   assert (H5 : 0 <= -C*(t*t)) by nra. nra. Qed.
-(* quarter bridge as the code computes it: strain = ((1/(Vo*(2/Vex)+1)) - 1) * (2*gain/(G*lead)) with gain=lead=1 *)
-Lemma quarter G Vex e : G <> 0 -> Vex <> 0 -> 2 + e*G <> 0 ->
-  let Vo := (1/(2+e*G) - 1/2) * Vex in
-  (/ (Vo * (2 / Vex) + 1) - 1) * (2 * 1 / (G * 1)) = e.
-Proof. intros HG HV Hd Vo. unfold Vo. field. repeat split; auto.
-  (* remaining side condition: the reciprocal's argument is non-zero *)
-  all: try lra.
-Admitted.
+(* RTD quadratic branch *)
+Lemma rtd_pos R0 A B T :
+  R0 > 0 -> B < 0 -> A + 2*B*T > 0 ->
+  let rt := R0 * (1 + A*T + B*T*T) in
+  (-A + sqrt (A*A - 4*B*(1 - rt/R0))) / (2*B) = T.
+Proof.
+  intros HR HB Hv rt. unfold rt.
+  replace (A*A - 4*B*(1 - R0*(1 + A*T + B*T*T)/R0)) with ((A + 2*B*T)*(A + 2*B*T)) by (field; lra).
+  rewrite sqrt_square by lra. field. lra.
+Qed.
